@@ -856,7 +856,7 @@ fn main() {
     run.assume("crash model: each object-store mutation is atomic, the sequence is interruptible anywhere; partial commits at a crash are measured, not asserted (tx.rs documents no write-ahead log)");
     let t = run.tier;
     if run.wants("seq") {
-        run.parallel("seq", t.pick(120, 4000), 0.6, |c, rng, st| seq_case(c, rng, st, t.pick(14, 18)));
+        run.parallel("seq", t.pick(280, 5000), 0.6, |c, rng, st| seq_case(c, rng, st, t.pick(16, 18)));
     }
     if run.wants("spaces") {
         run.parallel("spaces", t.pick(16, 300), 0.2, |c, rng, st| spaces_case(c, rng, st, 24));
@@ -864,10 +864,10 @@ fn main() {
     if run.wants("vis") {
         // every second case has no PREVIEW among the writer's statements: pending rows seen by a
         // reader there would come from a committing or refused statement
-        run.parallel("vis", t.pick(8, 120), 0.4, |c, rng, st| vis_case(c, rng, st, t.pick(40, 120), c % 2 == 0));
+        run.parallel("vis", t.pick(16, 160), 0.4, |c, rng, st| vis_case(c, rng, st, t.pick(40, 120), c % 2 == 0));
     }
     if run.wants("crash") {
-        run.parallel("crash", t.pick(6, 60), 0.9, |c, rng, st| crash_case(c, rng, st, 5, t.pick(30, 100000)));
+        run.parallel("crash", t.pick(12, 80), 0.9, |c, rng, st| crash_case(c, rng, st, t.pick(5, 7), t.pick(40, 100000)));
     }
     run.floor("stmt_committed", 200);
     run.floor("stmt_refused", 200);
